@@ -3,6 +3,7 @@ package main
 import (
 	"encoding/hex"
 	"fmt"
+	"math"
 	"strings"
 	"unicode/utf8"
 	"unsafe"
@@ -234,6 +235,9 @@ func (r *c20trunc) Exec(op []string) string {
 		s := string(c20Unhex(op[1]))
 		n := atoi(op[2])
 		vs := utf8.ValidString(s)
+		if n < -1 || n > len(s)+1 {
+			r.st.Note("n-far-outside(|n-len|>=2-or-n<=-2)")
+		}
 		switch {
 		case n < 0:
 			r.st.Note("negative-n")
@@ -277,12 +281,31 @@ func c20AllCuts(ops []string, s []byte, withNeg bool) []string {
 	return ops
 }
 
+// c20FarCuts: cut points well outside the string, n − len(s) and len(s) − n up to 10 and beyond, and the ends
+// of the int range (second audit §1 C20: only n ∈ [-1, len+1] was generated)
+func c20FarCuts(ops []string, s []byte) []string {
+	for d := 2; d <= 10; d++ {
+		ops = append(ops, fmt.Sprintf("tr %s %d", c20Hex(s), len(s)+d))
+		if d <= len(s) {
+			ops = append(ops, fmt.Sprintf("tr %s %d", c20Hex(s), len(s)-d))
+		}
+		ops = append(ops, fmt.Sprintf("tr %s %d", c20Hex(s), -d))
+	}
+	for _, n := range []int{len(s) + 1000, math.MaxInt64, math.MaxInt64 - len(s), math.MinInt64, -1000} {
+		ops = append(ops, fmt.Sprintf("tr %s %d", c20Hex(s), n))
+	}
+	return ops
+}
+
 func genC20Trunc(g *G) {
 	// exhaustive: byte strings over six byte classes, every cut point
 	maxLen := g.Scale(4, 5)
 	var rec func(cur []byte)
 	rec = func(cur []byte) {
 		g.Each(c20AllCuts([]string{"reset"}, cur, len(cur) <= 1)) // exhaustive parts: dealt to the generator shards
+		if len(cur) <= 2 {
+			g.Each(c20FarCuts([]string{"reset"}, cur))
+		}
 		if len(cur) == maxLen {
 			return
 		}
@@ -295,6 +318,9 @@ func genC20Trunc(g *G) {
 	for _, a := range c20Runes {
 		for _, b := range c20Runes {
 			g.Each(c20AllCuts([]string{"reset"}, []byte(string([]rune{a, b})), false))
+			if a >= b {
+				g.Each(c20FarCuts([]string{"reset"}, []byte(string([]rune{a, b, a}))))
+			}
 		}
 	}
 	// random valid strings over mixed-width runes, every cut point; some damaged afterwards
@@ -326,7 +352,11 @@ func genC20Trunc(g *G) {
 				s = append(s, c20ByteWide[g.Intn(len(c20ByteWide))])
 			}
 		}
-		g.Case(c20AllCuts([]string{"reset"}, s, g.Chance(1, 20)))
+		ops := c20AllCuts([]string{"reset"}, s, g.Chance(1, 20))
+		if g.Chance(1, 10) {
+			ops = c20FarCuts(ops, s)
+		}
+		g.Case(ops)
 	}
 	// the validity table itself: every lead byte class with every second-byte class, padded with continuations
 	for _, b0 := range c20ByteWide {
@@ -380,15 +410,45 @@ func (r *c20natcmp) cmp(a, b []byte) int {
 	return c
 }
 
+// noteRuns labels an op by its longest run of significant digits (leading zeros of a run not counted).  The
+// driver does NOT rely on this label: it decides by `Spec.Bytes.noOverflow` on the op's own strings whether the
+// specification is consulted (all runs fit an int) or only implementation = model is compared (overflow).
+func (r *c20natcmp) noteRuns(ss ...[]byte) {
+	longest := 0
+	for _, s := range ss {
+		run, sig := 0, false
+		for _, c := range s {
+			switch {
+			case c < '0' || c > '9':
+				run, sig = 0, false
+			case c != '0' || sig:
+				sig = true
+				run++
+			}
+			longest = max(longest, run)
+		}
+	}
+	switch {
+	case longest > 19:
+		r.st.Note("digit-run>19-digits(overflows-int:impl=model-only)")
+	case longest >= 18:
+		r.st.Note("digit-run-18..19-digits(at-the-int-boundary)")
+	default:
+		r.st.Note("digit-runs<18-digits(spec-verdict)")
+	}
+}
+
 func (r *c20natcmp) Exec(op []string) string {
 	switch op[0] {
 	case "reset", "matrix":
 		return "-"
 	case "cn2":
 		a, b := c20Unhex(op[1]), c20Unhex(op[2])
+		r.noteRuns(a, b)
 		return fmt.Sprintf("ab=%d ba=%d", r.cmp(a, b), r.cmp(b, a))
 	case "cn3":
 		a, b, c := c20Unhex(op[1]), c20Unhex(op[2]), c20Unhex(op[3])
+		r.noteRuns(a, b, c)
 		return fmt.Sprintf("ab=%d ba=%d bc=%d cb=%d ac=%d ca=%d", r.cmp(a, b), r.cmp(b, a), r.cmp(b, c), r.cmp(c, b), r.cmp(a, c), r.cmp(c, a))
 	case "row":
 		a := c20Unhex(op[3])
